@@ -24,11 +24,12 @@ def main():
         try:
             text = job()
         except Unsupported as u:
-            print(str(u))
+            # the module name lets ./check decide whether the property it is deciding depends on this module
+            print(str(u).replace("UNSUPPORTED ", f"UNSUPPORTED[{name}] ", 1))
             rc = 3
             continue
         except Exception as e:  # the live code could not be executed/introspected: a broken tie
-            print(f"UNSUPPORTED {name}: extractor raised {type(e).__name__}: {e}")
+            print(f"UNSUPPORTED[{name}] extractor raised {type(e).__name__}: {e}")
             rc = 3
             continue
         path = os.path.join(a.out, f"{name}.lean")
